@@ -594,6 +594,54 @@ def h_ref_sig8(ctx):
 
 
 # ------------------------------------------------------------------ instances
+# ------------------------------------------------------------------ H4.7 units of different parameters sharing one abbreviation table
+def h_shared_abbrev(ctx):
+    """several units with DIFFERENT address size / DWARF format (objects of different code models linked together) that use the SAME
+    abbreviation table and codes: every entry is decoded with the parameters of its own unit header, in whatever order the units are read"""
+    cfg = ctx.cfg
+    little, order = cfg['little'], cfg['order']
+    params = cfg['units']            # [(version, addr, fmt64)]
+    ab = abbrev_table([(1, TAG_CU, True, [(0x11, 0x01), (0x10, 0x17), (AT['const_value'], 0x0b)]),       # low_pc addr, stmt_list sec_offset, data1
+                       (2, TAG_VAR, False, [(AT['type'], 0x10), (AT['const_value'], 0x0b)])])              # type ref_addr, data1
+    sec = []
+    want = []
+    for u, (ver, addr, fmt64) in enumerate(params):
+        offsz = 8 if fmt64 else 4
+        refsz = addr if ver == 2 else offsz
+        lo = ctx.uint('u%d.low_pc' % u, 8 * addr)
+        sl = ctx.uint('u%d.stmt_list' % u, 8 * offsz)
+        c0, c1 = ctx.byte('u%d.c0' % u), ctx.byte('u%d.c1' % u)
+        ref = ctx.uint('u%d.ref' % u, 8 * refsz)
+        top = [1] + enc.enc_int(lo, addr, little) + enc.enc_int(sl, offsz, little) + [c0]
+        kid = [2] + enc.enc_int(ref, refsz, little) + [c1]
+        body = top + kid + [0]
+        h, hsz = unit_header(ver, fmt64, little, addr, 0, 'compile', body_len=len(body))
+        o = len(sec) + hsz
+        want.append([(o, len(top), [('DW_AT_low_pc', lo, o + 1), ('DW_AT_stmt_list', sl, o + 1 + addr), ('DW_AT_const_value', c0, o + 1 + addr + offsz)]),
+                     (o + len(top), len(kid), [('DW_AT_type', ref, o + len(top) + 1), ('DW_AT_const_value', c1, o + len(top) + 1 + refsz)]),
+                     (o + len(top) + len(kid), 1, [])])
+        sec += h + body
+    di, _ = mk_dwarfinfo(ctx, little, params[0][1], debug_info=sec, debug_abbrev=ab)
+    units = list(di.iter_CUs())
+    ctx.outcome('ok')
+    ctx.check_eq('shared-abbrev/units', len(units), len(params))
+    if len(units) != len(params):
+        return
+    seq = list(range(len(units)))
+    if order == 'reverse':
+        seq.reverse()
+    elif order == 'middle-first':
+        seq = seq[1:] + seq[:1]
+    got = {}
+    for i in seq:
+        got[i] = [(d.offset, d.size, [(n, a.raw_value, a.offset) for n, a in d.attributes.items()]) for d in ctx.drain(units[i].iter_DIEs())]
+    for i in range(len(units)):
+        ctx.check_eq('shared-abbrev/%s/unit%d/entries' % (order, i), len(got[i]), 3)
+        for g, w in zip(got[i], want[i]):
+            ctx.check_eq('shared-abbrev/%s/entry/offset-size' % order, [g[0], g[1]], [w[0], w[1]])
+            ctx.check_eq('shared-abbrev/%s/entry/attributes' % order, g[2], w[2])
+
+
 def _unit_instances(tier):
     out = []
     envs = ENVS_T if tier == 'thorough' else ENVS_Q + [dict(version=3, fmt64=True, little=True, addr=8)]
@@ -703,6 +751,9 @@ HARNESSES = [
     H('h4_5_tree', h_tree, _tree_instances, expect=('ok',),
       desc='every tree shape up to N entries under the unit entry, with and without DW_AT_sibling in ref4 / ref_udata / ref_addr form, after 0/1 preceding units: '
            'iter_DIEs sequence (offset, size, code, tag, child flag, nulls), exact tiling up to the declared unit length, iter_children / get_parent equal the nesting, random access before iteration'),
+    H('h4_7_shared_abbrev_table', h_shared_abbrev, lambda tier: [dict(little=l, units=u, order=o) for l in (True, False) for o in ('forward', 'reverse', 'middle-first')
+                                                             for u in ([(4, 4, False), (4, 8, False), (4, 8, True)], [(5, 8, True), (3, 4, False), (2, 8, False)])], expect=('ok',),
+      desc='units of different address size / DWARF format / version sharing ONE abbreviation table and the same codes (DW_FORM_addr, sec_offset, ref_addr): every entry is decoded with the parameters of its own unit, in any order of reading'),
     H('h4_6_refs', h_refs, lambda tier: [dict(env=e, form=f, warm=w) for e in ENVS_Q for f in (0x11, 0x12, 0x13, 0x14, 0x15, 0x10) for w in (False, True)] +
                                         [dict(env=e, form=f, warm=w, tu=True) for e in (dict(version=4, fmt64=False, little=True, addr=8), dict(version=4, fmt64=True, little=False, addr=4))
                                          for f in (0x11, 0x12, 0x13, 0x14, 0x15) for w in (False, True)], expect=('ok',),
